@@ -1,7 +1,8 @@
 // Harness for C15: interprets scripts against
 //   case <tag> dir|undir     Bpp/Graph/TreeGraphImpl.h instantiated at GlobalGraph           (ops t.*)
 //   case <tag> dag           Bpp/Graph/DAGraphImpl.h instantiated at GlobalGraph            (ops d.*)
-//   case <tag> obsdir|obsundir  Bpp/Graph/AssociationTreeGraphImplObserver.h (objects = labels) (ops o.*)
+//   case <tag> obsdir|obsundir  Bpp/Graph/AssociationTreeGraphImplObserver.h (objects by identity) (ops o.*)
+//   case <tag> obsdag        Bpp/Graph/AssociationDAGraphImplObserver.h (objects by identity)       (ops w.*)
 // The raw node/edge tables and the observer's maps are read through the befriended-template trick
 // of harness/C14.cpp; the cached validity flag of the tree through the guarded hook
 // verifCachedValid(), the two protected flags of the DAG through a derived class.
@@ -16,6 +17,7 @@
 #include <Bpp/Graph/TreeGraphImpl.h>
 #include <Bpp/Graph/DAGraphImpl.h>
 #include <Bpp/Graph/AssociationTreeGraphImplObserver.h>
+#include <Bpp/Graph/AssociationDAGraphImplObserver.h>
 #include <algorithm>
 #include <csignal>
 #include <cstdio>
@@ -218,6 +220,7 @@ struct M : Machine {
 // ---------------------------------------------------------------------------------------- DAG
 struct Dag : DAGraphImpl<GlobalGraph> {
   Dag() : DAGraphImpl<GlobalGraph>(true) {}
+  explicit Dag(bool) : DAGraphImpl<GlobalGraph>(true) {}
   bool cachedValid() const { return isValid_; }
   bool cachedRooted() const { return isRooted_; }
 };
@@ -422,6 +425,131 @@ struct MO : Machine {
   }
 };
 
+// ------------------------------------------------------------------------- DAG observer
+typedef AssociationDAGraphImplObserver<NObj, EObj, Dag> DObs;
+
+struct MOD : Machine {
+  static const int POOL = 12;
+  static const int NOBS = 3;
+  std::unique_ptr<DObs> obs[NOBS];
+  NP np[NOBS][POOL]; EP ep[NOBS][POOL];
+  int sel;
+  MOD() : sel(0) {
+    obs[0].reset(new DObs());
+    for (int k = 0; k < NOBS; ++k) freshPool(k);
+  }
+  void freshPool(int k) { for (int i = 0; i < POOL; ++i) { np[k][i].reset(new NObj(i)); ep[k][i].reset(new EObj(i)); } }
+  int ownerOf(const NP& p) const { int l = p->label; if (l < 0 || l >= POOL) return -1; for (int j = 0; j < NOBS; ++j) if (np[j][l] == p) return j; return -1; }
+  int ownerOf(const EP& p) const { int l = p->label; if (l < 0 || l >= POOL) return -1; for (int j = 0; j < NOBS; ++j) if (ep[j][l] == p) return j; return -1; }
+  template<class P> std::string lab(int k, const P& p) const {
+    if (!p) return "-";
+    int j = ownerOf(p);
+    std::string s = U((unsigned long)p->label);
+    if (j == k) return s;
+    return s + "@" + (j < 0 ? std::string("?") : U((unsigned long)j));
+  }
+  template<class Vec> std::string vec(int k, const Vec& v) const { std::string s; for (auto& p : v) s += lab(k, p) + " "; return s; }
+  template<class Map> std::string mp(int k, const Map& m) const {
+    std::vector<std::pair<std::pair<long, std::string>, unsigned>> v;
+    for (auto& kv : m) v.push_back(std::make_pair(std::make_pair(kv.first ? (long)kv.first->label : -1L, lab(k, kv.first)), kv.second));
+    std::sort(v.begin(), v.end());
+    std::string s; for (auto& x : v) s += x.first.second + ":" + U(x.second) + " ";
+    return s;
+  }
+  std::string state() {
+    Dag& G = *obs[0]->getGraph();
+    std::string s = graphState(G);
+    for (int k = 0; k < NOBS; ++k) if (obs[k]) {
+      DObs& o = *obs[k];
+      s += "X " + U(k) + " gN " + vec(k, Peek::gN(o)) + "gE " + vec(k, Peek::gE(o)) + "Ng " + mp(k, Peek::Ng(o)) + "Eg " + mp(k, Peek::Eg(o))
+        + "iN " + vec(k, Peek::iN(o)) + "iE " + vec(k, Peek::iE(o)) + "Ni " + mp(k, Peek::Ni(o)) + "Ei " + mp(k, Peek::Ei(o));
+    }
+    s += "V " + B(G.cachedValid()) + " R " + B(G.cachedRooted());
+    return s;
+  }
+  static int lbl(const std::string& s) { return s == "-" ? -1 : (int)toI(s); }
+  NP N(int l) { return l < 0 ? NP() : np[sel][l % POOL]; }
+  EP E(int l) { return l < 0 ? EP() : ep[sel][l % POOL]; }
+  template<class V> std::string labs(const V& v) { std::string s; for (auto& p : v) s += lab(sel, p) + " "; return s; }
+  template<class P> std::string lab1(const P& p) { return lab(sel, p); }
+  bool copyUndefined(DObs& src) {
+    for (auto& kv : Peek::Ng(src)) if (kv.second >= Peek::gN(src).size()) return true;
+    for (auto& kv : Peek::Eg(src)) if (kv.second >= Peek::gE(src).size()) return true;
+    return false;
+  }
+  std::string adopt(int j, int k) {
+    bool same = obs[k]->getGraph().get() == obs[j]->getGraph().get();
+    freshPool(k);
+    for (auto& kv : Peek::Ng(*obs[k])) { if (!kv.first) continue; int l = kv.first->label; if (ownerOf(kv.first) < 0 && l >= 0 && l < POOL) np[k][l] = kv.first; }
+    for (auto& kv : Peek::Eg(*obs[k])) { if (!kv.first) continue; int l = kv.first->label; if (ownerOf(kv.first) < 0 && l >= 0 && l < POOL) ep[k][l] = kv.first; }
+    return std::string("ok shared ") + B(same);
+  }
+  std::string obsOp(const Toks& t) {
+    const std::string& op = t[0];
+    if (op == "w.sel") { long k = toI(t[1]); if (k < 0 || k >= NOBS || !obs[k]) return "bad-slot"; sel = (int)k; return "ok"; }
+    if (op == "w.copy" || op == "w.clone" || op == "w.assign") {
+      long j = toI(t[1]), k = toI(t[2]);
+      if (j < 0 || j >= NOBS || k < 0 || k >= NOBS || !obs[j]) return "bad-slot";
+      if (op == "w.assign") {
+        if (!obs[k]) return "bad-slot";
+        if (j != k && copyUndefined(*obs[j])) return "ub";
+        *obs[k] = *obs[j];                                  // AssociationDAGraphImplObserver::operator=
+        if (j == k) return "ok self";
+        return adopt((int)j, (int)k);
+      }
+      if (j == k || k == 0) return "bad-slot";
+      if (copyUndefined(*obs[j])) return "ub";
+      obs[k].reset();
+      if (op == "w.copy") obs[k].reset(new DObs(*obs[j]));  // the copy constructor of the DAG observer
+      else obs[k].reset(obs[j]->clone());                   // clone()
+      if (!obs[sel]) sel = 0;
+      return adopt((int)j, (int)k);
+    }
+    DObs& o = *obs[sel]; const DObs& c = o;
+    Dag& G = *o.getGraph();
+    if (op == "w.createNode") { o.createNode(N(lbl(t[1]))); return "ok"; }
+    if (op == "w.link") { o.link(N(lbl(t[1])), N(lbl(t[2])), E(lbl(t[3]))); return "ok"; }
+    if (op == "w.unlink") { o.unlink(N(lbl(t[1])), N(lbl(t[2]))); return "ok"; }
+    if (op == "w.deleteNode") { o.deleteNode(N(lbl(t[1]))); return "ok"; }
+    if (op == "w.addFather") { o.addFather(N(lbl(t[1])), N(lbl(t[2])), E(lbl(t[3]))); return "ok"; }
+    if (op == "w.addSon") { o.addSon(N(lbl(t[1])), N(lbl(t[2])), E(lbl(t[3]))); return "ok"; }
+    if (op == "w.removeFather") { o.removeFather(N(lbl(t[1])), N(lbl(t[2]))); return "ok"; }
+    if (op == "w.removeSon") { o.removeSon(N(lbl(t[1])), N(lbl(t[2]))); return "ok"; }
+    if (op == "w.removeFathers") return "l " + labs(o.removeFathers(N(lbl(t[1]))));
+    if (op == "w.removeSons") return "l " + labs(o.removeSons(N(lbl(t[1]))));
+    if (op == "w.rootAt") { o.rootAt(N(lbl(t[1]))); return "ok"; }
+    if (op == "w.valid") return B(c.isValid());
+    if (op == "w.rooted") return B(c.isRooted());
+    if (op == "w.qn") {
+      NP a = N(lbl(t[1]));
+      std::string s;
+      s += "hf " + q([&] { return B(c.hasFather(a)) + " "; }) + "fa " + q([&] { return labs(c.getFathers(a)); });
+      s += "nf " + q([&] { return U(c.getNumberOfFathers(a)) + " "; });
+      s += "sons " + q([&] { return labs(c.getSons(a)); }) + "ns " + q([&] { return U(c.getNumberOfSons(a)) + " "; });
+      return s;
+    }
+    if (op == "w.qe") {
+      EP x = E(lbl(t[1]));
+      return "son " + q([&] { return lab1(c.getSon(x)) + " "; }) + "fa " + q([&] { return lab1(c.getFatherOfEdge(x)) + " "; });
+    }
+    if (op == "w.below") {
+      // getBelowNodes / getBelowEdges check the validity themselves; getLeavesUnderNode does not (a cycle would not return)
+      NP a = N(lbl(t[1]));
+      std::string s = "bn " + q([&] { return labs(o.getBelowNodes(a)); }) + "be " + q([&] { return labs(o.getBelowEdges(a)); });
+      if (!G.isValid()) return s + "lu notvalid";
+      return s + "lu " + q([&] { return labs(c.getLeavesUnderNode(a)); });
+    }
+    return "bad-op";
+  }
+  std::string op(const Toks& t) {
+    std::string r;
+    try { r = obsOp(t); }
+    catch (Exception&) { r = "exc:bpp"; }
+    catch (std::exception&) { r = "exc:std"; }
+    return r + " ; " + state();
+  }
+};
+
 // The script is run by worker processes: a worker interprets the cases one after the other and
 // writes one answer line per operation to a pipe; each operation runs under a watchdog (alarm).
 // When a worker dies (the watchdog fired: `hang`; a sanitizer abort or a signal: `crash`), the
@@ -433,6 +561,7 @@ static void onAlarm(int) { _exit(97); }
 static Machine* makeMachine(const Toks& t) {
   std::string kind = t.size() > 2 ? t[2] : "dir";
   if (kind == "dag") return new MD();
+  if (kind == "obsdag") return new MOD();
   if (kind == "obsdir") return new MO(true);
   if (kind == "obsundir") return new MO(false);
   return new M(kind != "undir");
